@@ -245,7 +245,9 @@ Fixpoint bind (mech : bool) (h : heap) (ps : list param) (fr : frame) (th : thru
       end
   end.
 
-(* copy-back of every copy-in parameter, in binding order *)
+(* copy-back of every copy-in parameter, in binding order.  The code walks `scope.variables`, a
+   std::map<std::string, Variable>, i.e. in the lexicographic order of the PARAMETER NAMES (cleanup.cpp:158,
+   call_impl.cpp:6282); the correspondence harness names parameters q0, q1, q2 so that both orders coincide. *)
 Fixpoint copy_back (h : heap) (th : thru) : option (heap * list cell) :=
   match th with
   | [] => Some (h, [])
